@@ -194,6 +194,8 @@ vset_union(&seen, &bfs)
         graph.wf_nodes(),
         // on a directed graph whose name-keyed adjacency maps are coherent, weak steps are symmetric (u_coh: lemma_wsteps_symmetric)
         graph.specs.directed ==> wsteps_symmetric(*graph),
+        // weak steps lead to node names (u_coh: lemma_wsteps_known): bounds plain_bfs
+        wsteps_known(*graph),
     ensures
         // [C10.wcc.wrong_method_on_undirected]
         !graph.specs.directed ==> is_err_kind(r, ErrorKind::WrongMethod),
@@ -208,7 +210,7 @@ vset_union(&seen, &bfs)
         invariant
             graph.wf_nodes(),
             forall|x: T| seen@.contains(x) <==> covered(components@, x),
-            graph.specs.directed && wsteps_symmetric(*graph),
+            graph.specs.directed && wsteps_symmetric(*graph), wsteps_known(*graph),
             forall|k: int| 0 <= k < components@.len() ==> is_w_reach_set(*graph, #[trigger] components@[k]@),
             forall|j: int, k: int, x: T| 0 <= j < k < components@.len() && #[trigger] components@[j]@.contains(x) && #[trigger] components@[k]@.contains(x) ==> false,
             forall|j: int| 0 <= j < it.index@ ==> covered(components@, #[trigger] graph.nodes_vec@[j].name),
